@@ -1107,6 +1107,7 @@ pub fn project(name: &str, trace: &[Value]) -> Vec<Value> {
         "routing" => crate::proj_c09::routing(trace),
         "cids" => crate::proj_cid::cids(trace),
         "keys" => crate::proj_key::keys(trace),
+        "ecn" => crate::proj_ecn::ecn(trace),
         "migration" => crate::proj_c15::migration(trace),
         "dgram" => crate::proj_c16::dgram(trace),
         "zerortt" => crate::proj_c17::zerortt(trace),
